@@ -28,6 +28,10 @@ GRAMMARS = [
     {"<start>": ["<expr>"], "<expr>": ["<expr>+<term>", "<term>"], "<term>": ["(<expr>)", "<digit>"], "<digit>": ["1", "2"]},
     {"<start>": ["<cfg>"], "<cfg>": ["<setting><cfg>", "<setting>"], "<setting>": ["<name>=<value>;", "<value> <fallback>"],
      "<fallback>": ["<value>", "none"], "<name>": ["k"], "<value>": ["1", "v"]},
+    # a terminal that looks like a nonterminal (contains a blank) next to the recursion
+    {"<start>": ["<doc>"], "<doc>": ["<line><br /><doc>", "<line>"], "<line>": ["t", "<b >u"]},
+    # a recursive part of the host from which the inserted nonterminal cannot be reached
+    {"<start>": ["<prog>"], "<prog>": ["<decl>;<expr>", "<expr>"], "<decl>": ["d"], "<expr>": ["<expr>+<term>", "<term>"], "<term>": ["1", "(<expr>)"]},
 ]
 G = GRAMMARS[GI]
 CAN = canonical(G)
